@@ -174,6 +174,15 @@ static void do_dump(void)
 	}
 	fprintf(fo, "h %d\n", memcmp(hdr, want, sizeof hdr) == 0);
 	rb = qb_rb_create_from_file(fd, 0);
+	if (rb == NULL) {
+		/* without the private /dev/shm another process may hold the fixed name for a moment: try again */
+		int tries;
+		for (tries = 0; rb == NULL && tries < 100; tries++) {
+			usleep(20000);
+			lseek(fd, (off_t)sizeof hdr, SEEK_SET);
+			rb = qb_rb_create_from_file(fd, 0);
+		}
+	}
 	close(fd);
 	unlink(fn);
 	if (rb == NULL) {
